@@ -77,6 +77,7 @@ type c18Handler struct {
 	wrongObject string // first object delivered at another version
 	log         []c18Event
 	removed     bool
+	delay       time.Duration // a handler that takes its time over every event
 }
 
 func (h *c18Handler) rec(typ string, obj interface{}) {
@@ -95,6 +96,9 @@ func (h *c18Handler) rec(typ string, obj interface{}) {
 		h.wrongObject = fmt.Sprintf("%s of %s %s", typ, u.GetAPIVersion(), u.GetName())
 	}
 	h.mu.Unlock()
+	if h.delay > 0 {
+		time.Sleep(h.delay)
+	}
 }
 func (h *c18Handler) OnAdd(obj interface{}, _ bool) { h.rec("add", obj) }
 func (h *c18Handler) OnUpdate(_, cur interface{})   { h.rec("update", cur) }
@@ -387,6 +391,8 @@ func propC18(c *vs.Case, nSubs, nRes, length int) error {
 							names = append(names, it.(*unstructured.Unstructured).GetName())
 						}
 						if fast {
+							// slow enough that its own resync is usually in progress
+							h.delay = 3 * time.Millisecond
 							sub.ri.Informer().AddEventHandlerWithResyncPeriod(h, 15*time.Millisecond)
 						} else {
 							sub.ri.Informer().AddEventHandler(h)
